@@ -2030,7 +2030,12 @@ class DensityMatrixMixer(Mixer):
             rho_L.iscale_axis(mix_L, 'wR')
             rho_L = npc.tensordot(rho_L, rho_c, axes=[['wR', '(p1.vR)'], ['wR*', '(p1*.vR*)']])
             if explicit_plus_hc:
-                rho_L = rho_L + rho_L.conj().itranspose()
+                # mix with the hermitian conjugate part of H as well: (LHeff^dagger theta)
+                x = npc.tensordot(LHeff, theta.conj(), axes=['(vR*.p0)', '(vL*.p0*)']).iconj()
+                x.ireplace_label('(vR*.p0)', '(vL.p0)')  # legs 'wR*', '(vL.p0)', '(p1.vR)'
+                x_c = x.conj()
+                x.iscale_axis(mix_L, 'wR*')
+                rho_L = rho_L + npc.tensordot(x, x_c, axes=[['wR*', '(p1.vR)'], ['wR', '(p1*.vR*)']])
             if IdL is None:  # can't set mix_L[IdL] = 1.
                 rho_L = rho_L + npc.tensordot(theta, theta.conj(), axes=['(p1.vR)', '(p1*.vR*)'])
         else:
@@ -2044,7 +2049,12 @@ class DensityMatrixMixer(Mixer):
             rho_R.iscale_axis(mix_R, 'wL')
             rho_R = npc.tensordot(rho_c, rho_R, axes=[['wL*', '(vL*.p0*)'], ['wL', '(vL.p0)']])
             if explicit_plus_hc:
-                rho_R = rho_R + rho_R.conj().itranspose()
+                # mix with the hermitian conjugate part of H as well: (theta RHeff^dagger)
+                y = npc.tensordot(theta.conj(), RHeff, axes=['(p1*.vR*)', '(p1.vL*)']).iconj()
+                y.ireplace_label('(p1.vL*)', '(p1.vR)')  # legs '(vL.p0)', '(p1.vR)', 'wL*'
+                y_c = y.conj()
+                y.iscale_axis(mix_R, 'wL*')
+                rho_R = rho_R + npc.tensordot(y_c, y, axes=[['wL', '(vL*.p0*)'], ['wL*', '(vL.p0)']])
             if IdR is None:
                 rho_R = rho_R + npc.tensordot(theta.conj(), theta, axes=['(vL*.p0*)', '(vL.p0)'])
         else:
